@@ -434,6 +434,17 @@ func run(t *T) {
 			t.Fail("C12/generator", "input file is not valid ("+shape+")", FileInput(f), err.Error(), "a valid file")
 			continue
 		}
+		// every fifth file carries stored options (one boolean option at a time): it is valid without them, so it is a
+		// valid file, and flattening must succeed and give a valid file all the same
+		if i%5 == 4 {
+			o, name := SingleFlagOpts(i / 5)
+			SetAllValidation(f, o)
+			if f.Validate() == nil {
+				shape += "/stored-" + name
+			} else {
+				SetAllValidation(f, nil)
+			}
+		}
 		checkFile(t, f, shape)
 	}
 }
